@@ -431,7 +431,7 @@ func TestC09Crash(t *testing.T) {
 func TestC09TokensFile(t *testing.T) {
 	rep := ev.NewReport("C09", "tokens-file")
 	rep.Bound = "old token lists {absent, [1 2], [4294967295]} × new token lists {[3 4], [], [7 8 9 10]}; every prefix of the recorded create/write/close/rename log, the in-flight write torn at every byte offset"
-	rep.Rule = "ring.Tokens.StoreToFile on the recording in-memory file system; for each crash image LoadTokensFromFile returns the old list, the new list or file-not-found — never a parse error or a third value (a leftover .tmp is allowed); distinct_nontrivial = crash images taken in the middle of a write"
+	rep.Rule = "ring.Tokens.StoreToFile on the recording in-memory file system; for each crash image LoadTokensFromFile returns the old list, the new list or file-not-found — never a parse error or a third value (a leftover .tmp is allowed); a further StoreToFile on top of every crash image (shorter and longer lists) must leave exactly that list; distinct_nontrivial = crash images taken in the middle of a write"
 	olds := [][]uint32{nil, {1, 2}, {4294967295}}
 	news := [][]uint32{{3, 4}, {}, {7, 8, 9, 10}}
 	for _, o := range olds {
@@ -458,6 +458,17 @@ func TestC09TokensFile(t *testing.T) {
 				okAbsent := o == nil && err != nil && vos.IsNotExist(err)
 				if !okOld && !okNew && !okAbsent {
 					rep.Violate(fmt.Sprintf("C09:tokens-file:%v->%v:%s", o, n, what), fmt.Sprintf("rewriting the tokens file from %v to %v, crash %s: loading yields (%v, %v); files %v", o, n, what, got, err, vos.Names(img)), nil)
+				}
+				// the restarted process writes its tokens again on whatever the crash left behind (a stale .tmp included):
+				// the file must then hold exactly that list
+				for _, third := range [][]uint32{{5}, {21, 22, 23, 24, 25, 26}} {
+					vos.Restore(img)
+					werr := ring.Tokens(third).StoreToFile(tokensPath)
+					got, err := ring.LoadTokensFromFile(tokensPath)
+					rep.Eval(1)
+					if werr != nil || err != nil || fmt.Sprint([]uint32(got)) != fmt.Sprint(third) {
+						rep.Violate(fmt.Sprintf("C09:tokens-file-rewrite:%v->%v:%s:%v", o, n, what, third), fmt.Sprintf("rewriting the tokens file from %v to %v, crash %s, then the restarted process stores %v (error %v): loading yields (%v, %v); files before the last store %v", o, n, what, third, werr, got, err, vos.Names(img)), nil)
+					}
 				}
 			}
 			for i := 0; i <= len(ops); i++ {
